@@ -18,6 +18,8 @@ import (
 
 // Image is a pristine copy of the process's .text section.
 type Image struct {
+	Slide      uintptr // run address - link address (non-zero for position-independent builds)
+	HasSymtab  bool
 	Start, End uintptr
 	Pristine   []byte
 	symAddr    []uintptr // sorted entries of FUNC symbols from .symtab
@@ -75,6 +77,11 @@ func Snapshot() (*Image, error) {
 		}
 	}
 	sort.Slice(img.symAddr, func(i, j int) bool { return img.symAddr[i] < img.symAddr[j] })
+	img.Slide = slide
+	img.HasSymtab = len(syms) > 0
+	if !img.HasSymtab && sec.Addr < 0x100000 {
+		return nil, fmt.Errorf("stripped position-independent binary: cannot locate .text")
+	}
 	img.Start = uintptr(sec.Addr) + slide
 	img.End = img.Start + uintptr(sec.Size)
 	img.Pristine = append([]byte(nil), raw(img.Start, int(sec.Size))...)
